@@ -24,18 +24,20 @@ fn val_op(v: &Val) -> Option<Operation> {
 }
 
 fn has_mixed_cluster(s: &str, g: bool) -> bool {
-    text_utils::unicode::CharString::split(s, g).any(|c| {
+    vh::split_clusters(s, g).any(|c| {
         let ws = c.chars().filter(|c| c.is_whitespace()).count();
         ws > 0 && ws < c.chars().count()
     })
 }
 
-fn word(rng: &mut Rng, seam: bool) -> String {
+fn word(rng: &mut Rng, seam: bool, ascii_only: bool) -> String {
     let n = rng.range(1, 4);
     let mut w = String::new();
     for _ in 0..n {
         let k = rng.below(10);
-        let u = if seam && k < 4 {
+        let u = if ascii_only {
+            *rng.pick(units::ASCII)
+        } else if seam && k < 4 {
             *rng.pick(units::SEAM)
         } else if k < 6 {
             *rng.pick(units::ASCII)
@@ -72,9 +74,13 @@ fn respace(rng: &mut Rng, chars: &[&str], density: usize) -> String {
 fn arbitrary(rng: &mut Rng, seam: bool) -> String {
     let n = rng.below(9);
     let mut s = String::new();
+    // one text in five is pure ASCII with line endings (CR LF is a single cluster in grapheme mode)
+    let ascii_only = rng.chance(1, 5);
     for _ in 0..n {
         let k = rng.below(10);
-        let u = if k < 3 {
+        let u = if ascii_only {
+            *rng.pick(&["a", "b", "x", " ", " ", "\r\n", "\n", "\r", "\t", "."])
+        } else if k < 3 {
             *rng.pick(units::WS)
         } else if seam && k < 5 {
             *rng.pick(units::SEAM)
@@ -98,9 +104,11 @@ impl Prop for C10 {
         let (from, to) = if stream < 80 {
             // valid stream: one word sequence, two spacings
             let nw = rng.below(5);
-            let text: String = (0..nw).map(|_| word(rng, seam)).collect::<Vec<_>>().join("");
+            // one text in five is pure ASCII (the shape on which an `is_ascii()` shortcut would be taken)
+            let ascii_only = !seam && rng.chance(1, 5);
+            let text: String = (0..nw).map(|_| word(rng, seam, ascii_only)).collect::<Vec<_>>().join("");
             // seam stream: respace between code points even in grapheme mode (KF1 territory)
-            let chars: Vec<&str> = text_utils::unicode::CharString::split(&text, g && !seam).collect();
+            let chars: Vec<&str> = vh::split_clusters(&text, g && !seam).collect();
             let d1 = rng.below(8);
             let d2 = rng.below(8);
             (respace(rng, &chars, d1), respace(rng, &chars, d2))
@@ -175,7 +183,7 @@ impl Prop for C10 {
         }
         // cluster-level premise: clean on clusters and equal non-whitespace cluster lists
         let nonws = |s: &str| -> Vec<String> {
-            text_utils::unicode::CharString::split(s, g)
+            vh::split_clusters(s, g)
                 .filter(|c| !c.chars().all(|c| c.is_whitespace()))
                 .map(|c| c.to_string())
                 .collect()
